@@ -159,8 +159,7 @@ theorem step_pub {N Q s a p s'} (h : Step N Q s (.pub a p) s') :
       s' = { s with act := upd s.act a (.resEnq p (s.prom p).conts),
                     prom := setProm s p (fun q => { q with settled := some r }),
                     pubs := upd s.pubs p (s.pubs p + 1),
-                    loc := fun c => if c = p ∧ own = true then .finished
-                                    else if c ∈ (s.prom p).conts then .actor a else s.loc c } := by
+                    loc := pubLoc s.loc p own (s.prom p).conts a } := by
   simp only [Step, stepB] at h
   split at h <;> try contradiction
   split at h <;> try contradiction
@@ -275,7 +274,7 @@ theorem count_eraseFirst (c t : Nat) (l : List Nat) :
 
 macro "inv_split" : tactic => `(tactic|
   (refine ⟨?_, ?_, ?_, ?_, ?_, ?_, ?_, ?_, ?_, ?_, ?_, ?_, ?_, ?_, ?_, ?_, ?_, ?_, ?_, ?_, ?_, ?_, ?_, ?_⟩ <;>
-    simp only [upd_apply, setProm, apply_ite PState.settled, apply_ite PState.conts, apply_ite PState.locked, apply_ite PState.kind, apply_ite PState.claimed, List.count_append, List.count_cons, List.count_nil, count_eraseFirst] <;> intros))
+    simp only [upd_apply, setProm, pubLoc, apply_ite PState.settled, apply_ite PState.conts, apply_ite PState.locked, apply_ite PState.kind, apply_ite PState.claimed, List.count_append, List.count_cons, List.count_nil, count_eraseFirst] <;> intros))
 
 theorem inv_add {N Q s a c s'} (hi : Inv s) (h : Step N Q s (.add a c) s') : Inv s' := by
   obtain ⟨ret, hst, hk, rfl⟩ := step_add h
